@@ -12,9 +12,13 @@ def scale_inner(op):
         return " ".join(t[4:])
     return None
 
+HOOK_COMMITS = []
+
 PROPS = {
-    "C05": {"obs": None, "exhaustive_note": "all strings of length 1..2 over the 132-symbol alphabet, both checksum variants"},
-    "C06": {"obs": None, "exhaustive_note": "every (first digit, position, digit) cell for 7- and 12-digit bodies"},
-    "C07": {"obs": None, "exhaustive_note": "all strings of length 0..2 over ASCII 0..127 x 4 option mixes, both symbologies"},
-    "C08": {"obs": None, "exhaustive_note": "Codabar: all strings of length <= 4 (quick) / 5 (thorough) over 20 characters + 3 noise characters; 2 of 5 and AddCheckSum: all digit strings of length <= 5 (quick) / 6 (thorough)"},
+    "C05": {"claim": 'Model of code128/encode.go (Lean; tables regenerated from /repo each run) tied to the code by correspondence (exhaustive for lengths 1-2 over the 132-symbol alphabet, structured random beyond) and judged by a reference decoder written from ISO/IEC 15417 in element-width form.', "obs": None, "exhaustive_note": "all strings of length 1..2 over the 132-symbol alphabet, both checksum variants"},
+    "C06": {"claim": 'Model of ean/encoder.go tied by correspondence; Spec decoder from the L set (R, G and parity derived); acceptance and check digit stated for every digit string.', "obs": None, "exhaustive_note": "every (first digit, position, digit) cell for 7- and 12-digit bodies"},
+    "C07": {"claim": 'Models of code39/ and code93/ tied by correspondence (exhaustive lengths 0-2 over ASCII x 4 option mixes); Spec decoders from the Code 39 generating rule and the Code 93 width table incl. check characters and full-ASCII pair resolution.', "obs": None, "exhaustive_note": "all strings of length 0..2 over ASCII 0..127 x 4 option mixes, both symbologies"},
+    "C17": {"claim": 'Model of utils/galoisfield.go, gfpoly.go, reedsolomon.go tied by correspondence (all operand pairs of the small fields in quick, of every field in thorough; polynomial ops; shared-encoder request histories); judged against an independent shift-and-reduce field multiplication and evaluation-at-roots validity.', "obs": None, "exhaustive_note": "quick: all operand pairs of GF(16), GF(64), GF(256)/285, GF(256)/301 for Multiply/Divide/Invers, sampled rows of GF(1024), GF(4096); thorough: all pairs of every field; every check-symbol count 1..min(n-1,600) in ascending and descending request order on shared encoders"},
+    "C18": {"claim": 'Model of utils/bitlist.go over BitVec 32 words tied by correspondence (exhaustive short scripts, long random scripts across word and growth boundaries); judged against the abstract bit-sequence semantics.', "obs": None, "exhaustive_note": "every script of <= 4 (quick) / 5 (thorough) operations over an 8-operation alphabet from 7 initial lists"},
+    "C08": {"claim": "Models of codabar/ and twooffive/ tied by correspondence (exhaustive short strings); Spec decoders by run lengths from the standards' narrow/wide tables; check-digit helper against the 3-1 weighted sum.", "obs": None, "exhaustive_note": "Codabar: all strings of length <= 4 (quick) / 5 (thorough) over 20 characters + 3 noise characters; 2 of 5 and AddCheckSum: all digit strings of length <= 5 (quick) / 6 (thorough)"},
 }
